@@ -1,8 +1,20 @@
-use coap_lite::CoapOption;
+use coap_lite::{CoapOption, MessageClass, ResponseType};
 
 #[kani::proof]
 fn option_number_roundtrip() {
     let n: u16 = kani::any();
     let o = CoapOption::from(n);
     assert!(u16::from(o) == n);
+}
+
+/// C05: a response code is reported as an error exactly when its byte is 4.00 (0x80) or above.
+/// Goes through the real From<u8> table and the derived PartialOrd that is_error relies on.
+#[kani::proof]
+fn is_error_iff_byte_ge_0x80() {
+    let n: u8 = kani::any();
+    if let MessageClass::Response(t) = MessageClass::from(n) {
+        assert!(t.is_error() == (n >= 0x80));
+        assert!(n >= 0x40);
+    }
+    assert!(ResponseType::UnKnown.is_error());
 }
